@@ -47,11 +47,11 @@ type c13Case struct {
 	Early bool `json:"early,omitempty"`
 	// DuplexHandler: the bidi handler answers each request from a second
 	// goroutine while its main loop is already receiving the next one.
-	DuplexHandler bool `json:"duplex_handler,omitempty"`
-	Bound  int   `json:"bound"`
-	Sub    int   `json:"sub"`  // sub-shard of the root's children
-	Subs   int   `json:"subs"` //
-	Prefix []int `json:"prefix,omitempty"`
+	DuplexHandler bool  `json:"duplex_handler,omitempty"`
+	Bound         int   `json:"bound"`
+	Sub           int   `json:"sub"`  // sub-shard of the root's children
+	Subs          int   `json:"subs"` //
+	Prefix        []int `json:"prefix,omitempty"`
 }
 
 func (k c13Case) key() string {
@@ -689,13 +689,27 @@ func TestC13(t *testing.T) {
 // first again): what each of them gets must be what it gets from a fresh
 // handler of its own.
 func c13MixedPeers(t *testing.T, c *ev.Collector) {
-	type peer struct{ enc, accept string }
-	menu := []peer{{"", "gzip"}, {"gzip", ""}, {"gzip", "gzip"}, {"", ""}, {"", "identity"}, {"identity", "gzip"}}
+	mixedPeers(t, c, "TestC13", nil, []mixedPeer{{"", "gzip"}, {"gzip", ""}, {"gzip", "gzip"}, {"", ""}, {"", "identity"}, {"identity", "gzip"}})
+}
+
+type mixedPeer struct{ enc, accept string }
+
+// mixedPeers runs every ordered pair of peers of the menu (then the first
+// again) through one shared handler built with opts and compares each answer
+// with the answer of a handler of its own.
+func mixedPeers(t *testing.T, c *ev.Collector, test string, opts []connect.HandlerOption, menu []mixedPeer) {
+	type peer = mixedPeer
 	serve := func(h http.Handler, p Proto, kind Kind, pe peer, tag byte) string {
 		payload := codecMarshal(false, &BV{Value: Payload(60, tag)})
 		var body []byte
-		if pe.enc == "gzip" {
-			z := Gzip(payload)
+		if pe.enc != "" && pe.enc != "identity" {
+			var z []byte
+			switch pe.enc {
+			case "gzip":
+				z = Gzip(payload)
+			case "alg1":
+				z = XorEncode(0xA1, payload)
+			}
 			if p == PConnect && kind == KUnary {
 				body = z
 			} else {
@@ -738,7 +752,7 @@ func c13MixedPeers(t *testing.T, c *ev.Collector) {
 				got = append(got, m.Value...)
 			}
 			return s.Send(&BV{Value: append([]byte{'r'}, got...)})
-		})
+		}, opts...)
 	}
 	idx := 0
 	for _, p := range AllProtos {
@@ -766,7 +780,7 @@ func c13MixedPeers(t *testing.T, c *ev.Collector) {
 						for n, pair := range [][2]string{{got1, soloFirst}, {got2, soloSecond}, {got3, soloFirst}} {
 							if pair[0] != pair[1] {
 								bad = true
-								c.Violation("TestC13", "same-as-solo", "differs", tags, key, "%s: request #%d through the shared handler (peers: first enc=%q accept=%q, second enc=%q accept=%q) observed\\n    %s\\n  from a handler of its own it observes\\n    %s", key, n+1, first.enc, first.accept, second.enc, second.accept, pair[0], pair[1])
+								c.Violation(test, "same-as-solo", "differs", tags, key, "%s: request #%d through the shared handler (peers: first enc=%q accept=%q, second enc=%q accept=%q) observed\\n    %s\\n  from a handler of its own it observes\\n    %s", key, n+1, first.enc, first.accept, second.enc, second.accept, pair[0], pair[1])
 							}
 						}
 						if bad {
